@@ -3,7 +3,7 @@
 from __future__ import annotations
 
 import datetime
-from decimal import Decimal
+from decimal import Context, Decimal
 from typing import Any
 
 import construct  # type: ignore
@@ -217,10 +217,19 @@ UnitField = construct.FocusedSeq(
     "value" / PhysicalUnits,
 )
 
+# Scaling is exact and must not depend on the decimal context of the calling thread.
+_EXACT = Context(prec=60)
+
+
+def scale_value(unscaled_value: int, scale: Decimal) -> Decimal:
+    """Return unscaled_value x scale, computed exactly."""
+    return _EXACT.multiply(Decimal(unscaled_value), scale)
+
+
 Scaler = construct.Struct(
     "exponent"
     / IntegerField,  # This is the exponent (to the base of 10) of the multiplication factor.
-    "scale" / construct.Computed(lambda ctx: Decimal(10) ** ctx.exponent),
+    "scale" / construct.Computed(lambda ctx: _EXACT.power(Decimal(10), ctx.exponent)),
 )
 
 ScalerUnitField = construct.Struct(
